@@ -135,7 +135,8 @@ def check(prop, tier, only=None, verbose=False):
     mods, jobs = plan(prop, tier, only)
     workdir = os.path.join(VERIF, '.work', '%s-%s-%d' % (prop, tier, os.getpid()))
     os.makedirs(workdir, exist_ok=True)
-    evdir = os.path.join(VERIF, 'evidence')
+    # checks write /verif/evidence; runs against scratch copies (mutants, seeded changes) are told to write elsewhere
+    evdir = os.environ.get('VERIF_EVIDENCE_DIR') or os.path.join(VERIF, 'evidence')
     os.makedirs(os.path.join(evdir, 'replay'), exist_ok=True)
     for old in glob.glob(os.path.join(evdir, 'replay', prop + '-*.json')):
         os.remove(old)
